@@ -16,7 +16,7 @@ THREAD_SPECS = [["--threads", "1"], ["--threads", "main:1"], ["--threads", "defa
                 ["--threads", "0"]]
 
 
-def run_group(ctx, roots, extra, env, cwd, stdin_roots=False, timeout=90):
+def run_group(ctx, roots, extra, env, cwd, stdin_roots=False, timeout=45):
     args = ["group"] + ([] if stdin_roots else list(roots)) + ["-f", "json"] + list(extra)
     if stdin_roots:
         args.append("--stdin")
@@ -43,12 +43,30 @@ def run(ctx):
     core.build_fclones()
     ntrees = ctx.pick(25, 150)
     repeats = ctx.pick(2, 6)
+    hangs = {}
+    delay_script = os.path.join(ctx.scratch, "delay.py")
+    with open(delay_script, "w") as f:
+        # transform that copies stdin to stdout, sleeping first for the file whose content starts with $SLOW_TAG:
+        # perturbs the ARRIVAL ORDER of hashes at the result channel without changing any result
+        f.write("import os,sys,time\nd=sys.stdin.buffer.read()\nt=os.environb.get(b'SLOW_TAG',b'')\n"
+                "time.sleep(0.25 if t and d[:len(t)]==t else 0)\nsys.stdout.buffer.write(d)\n")
     for ti in range(ntrees):
         rng = ctx.rng.fork()
         base = os.path.join(ctx.scratch, "t%d" % ti)
         tree = treegen.gen_tree(rng, base, nroots=1 + rng.below(3), nfiles=6 + rng.below(30), hardlinks=True,
                                 names="hostile" if ti % 3 == 1 else "plain")
         roots = tree.roots
+        # names that differ only in a byte that is not valid UTF-8, same content, same directory (ordering by a lossy
+        # string would tie them and expose the arrival order)
+        twins = []
+        if ti % 3 == 1 and tree.files:
+            f0 = tree.files[rng.below(len(tree.files))]
+            data = open(f0["path"], "rb").read()
+            for b in (b"\xff", b"\xfe", b"\xfd"):
+                tp = os.path.join(os.path.dirname(f0["path"]), b"twin" + b + b"x")
+                if not os.path.lexists(tp):
+                    tree.add_file(tp, data, f0["cls"])
+                    twins.append(tp)
         cache_home = os.path.join(ctx.scratch, "cache%d" % ti)
         env0 = {"FCLONES_VERIF_DISK_KIND": "ssd", "XDG_CACHE_HOME": cache_home, "HOME": cache_home}
         opts = rng.choice([[], ["--rf-over", "0"], ["--unique"], ["--rf-under", "3"], ["--match-links"], []])
@@ -64,6 +82,8 @@ def run(ctx):
         ctx.bump("opts", " ".join(opts) or "default")
 
         def check(label, kind, extra, env, roots_v=roots, stdin_roots=False):
+            if hangs.get(label.split("=")[0], 0) >= 2:
+                return   # this variation class already hangs: one replay is enough, do not wait for more time-outs
             e = dict(env0)
             e.update(env)
             err, groups = run_group(ctx, roots_v, opts + extra, e, base, stdin_roots)
@@ -73,6 +93,8 @@ def run(ctx):
                        "roots": [r.decode("utf-8", "replace") for r in roots_v], "opts": opts + extra,
                        "env": {k: v for k, v in e.items() if k.startswith("FCLONES")}}
             if err:
+                if err == "hang":
+                    hangs[label.split("=")[0]] = hangs.get(label.split("=")[0], 0) + 1
                 ctx.violation({"kind": "hang" if err == "hang" else "run_failed", "variation": label.split("=")[0]},
                               "%s under %s" % (err, label), payload, found_input=True)
                 return
@@ -100,6 +122,20 @@ def run(ctx):
         mounts = ",".join("ssd=%s" % r.decode() for r in roots)
         check("mounts=ssd_per_root", "body", [], {"FCLONES_VERIF_MOUNTS": mounts})
         check("mounts=ssd_per_root+threads1", "body", ["--threads", "1"], {"FCLONES_VERIF_MOUNTS": mounts})
+        # arrival-order perturbation: same transform, a different file is slow each time => identical bodies
+        if ti % 3 == 1 and tree.files:
+            tr = ["--transform", "python3 " + delay_script]
+            terr, tbase = run_group(ctx, roots, opts + tr, env0, base)
+            if not terr:
+                saved = (bkey, pkey)
+                bkey, pkey = treegen.body_key(tbase), treegen.partition_key(tbase)
+                cands = [f["path"] for f in tree.files if f["size"] >= 4][:40]
+                picks = (twins + rng.shuffle(cands))[:ctx.pick(3, 8)]
+                for pth in picks:
+                    tag = open(pth, "rb").read()[:12]
+                    if tag and b"\0" not in tag:
+                        check("arrival=slow_file", "body", tr, {"SLOW_TAG": tag.decode("latin-1")})
+                bkey, pkey = saved
         # partition-only variations
         for h in (HASH_FNS if not ctx.quick else [rng.choice(HASH_FNS[1:]), "sha256"]):
             check("hash_fn=" + h, "partition", ["--hash-fn", h], {})
